@@ -22,7 +22,8 @@ use tokio::{
 use tracing::{error, trace};
 
 /// Writes the batch header and payload, all of it: a single `write_vectored` call may accept only
-/// a part of the data (`tokio::fs::File` takes at most 2 MiB per call).
+/// a part of the data (`tokio::fs::File` takes at most 2 MiB per call), and returns once the bytes
+/// are in the file.
 pub(super) async fn write_all_vectored(
     file: &mut File,
     header: &[u8],
@@ -37,7 +38,9 @@ pub(super) async fn write_all_vectored(
         }
         IoSlice::advance_slices(&mut remaining, written);
     }
-    Ok(())
+    // `tokio::fs::File::write` returns as soon as the bytes have been handed to a background task:
+    // wait until they are in the file (and see the error, if the write failed).
+    file.flush().await
 }
 
 /// A dedicated struct for writing to the log file.
